@@ -67,7 +67,7 @@ def make_run(case):
         groups = []
         for part in parts:
             ov = {}
-            for key in rnd.sample(["lr", "betas", "beta3", "epsilon", "momentum", "weight_decay", "precondition_frequency", "start_preconditioning_step", "use_nesterov", "dampening", "use_decoupled_weight_decay", "use_bias_correction"], rnd.randint(0, 4)):
+            for key in rnd.sample(["lr", "betas", "beta3", "epsilon", "momentum", "weight_decay", "precondition_frequency", "start_preconditioning_step", "use_nesterov", "dampening", "use_decoupled_weight_decay", "use_bias_correction", "grafting", "precond", "inv_root_override", "max_preconditioner_dim", "use_merge_dims", "preconditioner_dtype"], rnd.randint(0, 5)):
                 if key == "lr":
                     ov[key] = rnd.choice([0.02, 0.3])
                 elif key == "betas":
@@ -86,10 +86,34 @@ def make_run(case):
                     ov[key] = rnd.choice([4, 6, 8])
                 elif key == "dampening":
                     ov[key] = rnd.choice([0.0, 0.15])
+                elif key == "grafting":
+                    ov[key] = G.rand_grafting(rnd)
+                elif key == "precond":
+                    if cfg["precond"]["solver"]["type"] in ("newton", "ho"):
+                        continue  # the conditioning class of iterative solvers is set up for the whole run
+                    ov[key] = G.rand_precond(rnd, allow_iterative=False, allow_ignored=cfg["inv_root_override"] == 0)
+                elif key == "inv_root_override":
+                    if cfg["precond"]["ignored_dims"]:
+                        continue
+                    ov[key] = rnd.choice([0, 2, [2, 1, 3]])
+                elif key == "max_preconditioner_dim":
+                    ov[key] = rnd.choice([3, 4, 1024])
+                elif key == "use_merge_dims":
+                    ov[key] = rnd.random() < 0.5
+                elif key == "preconditioner_dtype":
+                    if cfg["param_dtype"] == "bfloat16":
+                        continue
+                    ov[key] = rnd.choice(["float32", "float64"])
                 else:
                     ov[key] = rnd.random() < 0.5
             if "epsilon" in ov:
                 ov["epsilon"] = cfg["epsilon"] * 3
+            eff_ign = ov.get("precond", cfg["precond"])["ignored_dims"]
+            eff_iro = ov.get("inv_root_override", cfg["inv_root_override"])
+            if eff_ign and eff_iro != 0:
+                ov.pop("inv_root_override", None)
+                if cfg["inv_root_override"] != 0:
+                    ov.pop("precond", None)
             # keep start >= frequency inside the group (the documented domain)
             f = ov.get("precondition_frequency", cfg["precondition_frequency"])
             st = ov.get("start_preconditioning_step", cfg["start_preconditioning_step"] if cfg["start_preconditioning_step"] != -1 else cfg["precondition_frequency"])
